@@ -61,7 +61,7 @@ func enumerateFaults(c *Case, run func(w io.Writer) error) {
 }
 
 func c19Gen(r *RNG, id string) *Case {
-	kinds := []string{"snps", "snps-agg", "variants", "variants-agg", "toma", "toma-wrap", "samvariants", "closest", "closest-n", "closest-table", "list", "topranking", "topranking-table", "topa-devfull", "cli-devfull"}
+	kinds := []string{"snps", "snps-agg", "variants", "variants-agg", "toma", "toma-wrap", "samvariants", "closest", "closest-n", "closest-table", "list", "topranking", "topranking-table", "topa-devfull", "cli-devfull", "anycmd-devfull", "anycmd-devfull"}
 	kind := kinds[r.Intn(len(kinds))]
 	var base *Case
 	switch kind {
@@ -97,12 +97,18 @@ func c19Gen(r *RNG, id string) *Case {
 		base.SetBool("table", kind == "topranking-table")
 	case "topa-devfull":
 		base = topaGen(r, id, false)
+	case "anycmd-devfull":
+		// any command of the C18 set-ups (valid input, random valid options) with its standard output on a full device
+		base = NewCase("EXIT", id)
+		base.Set("sub", r.PickStr([]string{"snps", "closest", "closest-n", "list", "topranking", "variants", "toma", "samvariants"}))
+		base.SetInt("setupseed", r.Intn(1<<30))
+		base.NonTrv = true
 	default:
 		base = c03Gen(r, id, false)
 	}
 	c := cloneCase(base)
 	c.Prop = "FAULT"
-	if kind == "topa-devfull" || kind == "cli-devfull" {
+	if kind == "topa-devfull" || kind == "cli-devfull" || kind == "anycmd-devfull" {
 		c.Prop = "EXIT"
 		c.Set("expect", "refuse")
 	}
@@ -184,6 +190,15 @@ func execExit(r *RNG, c *Case) {
 		os.WriteFile(filepath.Join(dir, "r.fa"), []byte(renderFasta([]string{"ref"}, []string{c.Get("ref")}, layout{})), 0644)
 		os.WriteFile(filepath.Join(dir, "a.fa"), []byte(renderFasta(strings.Split(c.Get("names"), ","), strings.Split(c.Get("seqs"), ","), layout{})), 0644)
 		args = []string{"snps", "-r", filepath.Join(dir, "r.fa"), "-q", filepath.Join(dir, "a.fa")}
+	case "anycmd-devfull":
+		st := validSetup(NewRNG(uint64(atoi(c.Get("setupseed")))), c.Get("sub"))
+		for n, txt := range st.files {
+			os.WriteFile(filepath.Join(dir, n), []byte(txt), 0644)
+		}
+		for _, a := range st.args {
+			args = append(args, strings.ReplaceAll(a, "{dir}", dir))
+		}
+		c.Tag("devfull-" + c.Get("sub"))
 	default:
 		execExitC18(c, dir)
 		return
